@@ -132,7 +132,10 @@ def main():
         for d in ctx.disagreements[:3]:
             print("  disagreement: " + str(d["what"])[:300])
         rc = 1
-    common.write_evidence(ctx, "proof", checker_cmd, getattr(mod, "extra_coverage", lambda c: None)(ctx),
+    if args.no_lean:
+        print("(debug run without the Lean build: evidence file not written)")
+    else:
+        common.write_evidence(ctx, "proof", checker_cmd, getattr(mod, "extra_coverage", lambda c: None)(ctx),
                           violations=len(fresh) + (1 if rc and not fresh else 0))
     print(f"{prop} {tier} seed={seed}: obligations {len(ctx.discharged)}/{len(ctx.obligations)} "
           f"evaluations={ctx.evaluations} distinct={len(ctx.nontrivial)} disagreements={len(ctx.disagreements)} "
